@@ -250,6 +250,14 @@ func c03ChoquetTies(c *caseCtx) {
 	for _, a := range g.M["knownAlternatives"].([]interface{}) {
 		cv := a.(M)["criteria"].(M)
 		base := quarter(c.rng, 0, 12)
+		if c.idx%4 == 3 {
+			// large values that differ by hundredths: far apart for the absolute 1e-5 grouping distance
+			base = 2500 + float64(c.rng.Intn(3))
+			for k := range cv {
+				cv[k] = base + float64(c.rng.Intn(5))/100
+			}
+			continue
+		}
 		for k := range cv {
 			switch c.rng.Intn(4) {
 			case 0:
